@@ -22,12 +22,25 @@ from inferno.extra import ExactNeuron
 from rv import factory as fac
 
 TRAINERS = ["STDP", "TripletSTDP", "MSTDP", "MSTDPET", "KernelSTDP", "DelayAdjustedSTDP", "DelayAdjustedSTDPD",
-            "DelayAdjustedKernelSTDP", "DelayAdjustedKernelSTDPD", "DelayAdjustedMSTDP", "DelayAdjustedMSTDPD"]
+            "DelayAdjustedKernelSTDP", "DelayAdjustedKernelSTDPD", "DelayAdjustedMSTDP", "DelayAdjustedMSTDPD",
+            "StableSTDP", "StableTripletSTDP"]
 NEEDS_DELAY = {"DelayAdjustedSTDP", "DelayAdjustedSTDPD", "DelayAdjustedKernelSTDP", "DelayAdjustedKernelSTDPD",
                "DelayAdjustedMSTDP", "DelayAdjustedMSTDPD"}
 LEARNS_DELAY = {"DelayAdjustedSTDPD", "DelayAdjustedKernelSTDPD", "DelayAdjustedMSTDPD"}
 THREE_FACTOR = {"MSTDP", "MSTDPET", "DelayAdjustedMSTDP", "DelayAdjustedMSTDPD"}
-HAS_DELAYED_FLAG = {"STDP", "TripletSTDP", "MSTDP", "KernelSTDP"}
+HAS_DELAYED_FLAG = {"STDP", "TripletSTDP", "MSTDP", "KernelSTDP", "StableSTDP", "StableTripletSTDP"}
+# the two "stable" pair / triplet trainers (same file, same documented rule, not in the default exports: unit-amplitude traces
+# scaled by the learning rate afterwards) are held to the rule of their exported siblings
+RULE = {"StableSTDP": "STDP", "StableTripletSTDP": "TripletSTDP"}
+
+
+def trainer_class(name):
+    cls = getattr(learn, name, None)
+    if cls is None:
+        from inferno.learn.trainers import two_factor_stdp
+
+        cls = getattr(two_factor_stdp, name)
+    return cls
 
 DEFAULT_HYPER = {"lr_a": 0.8, "lr_b": -0.5, "tc_a": 7.0, "tc_b": 11.0, "lr_a3": 0.3, "lr_b3": 0.2, "tc_a_slow": 30.0,
                  "tc_b_slow": 40.0, "tc_elig": 15.0, "trace_mode": "cumulative", "delayed": False}
@@ -56,7 +69,7 @@ def trainer_args(name, hyper):
     # optional, behaviour-neutral settings (where the trainer documents them): in-place record writes of its reducers and the
     # time tolerance for treating a delay as on the step grid (delays drawn on the grid, or far from it, are unaffected)
     import inspect
-    accepted = inspect.signature(getattr(learn, name).__init__).parameters
+    accepted = inspect.signature(trainer_class(name).__init__).parameters
     for k in ("inplace", "interp_tolerance"):
         if k in hyper and k in accepted:
             kw[k] = hyper[k]
@@ -65,6 +78,7 @@ def trainer_args(name, hyper):
 
 def _trainer_args(name, hyper):
     """-> (positional hyper-parameters as a dict of the documented keyword names, forward-less)"""
+    name = RULE.get(name, name)
     h = {**DEFAULT_HYPER, **hyper}
     a, b, ta, tb = h["lr_a"], h["lr_b"], h["tc_a"], h["tc_b"]
     if name in ("STDP", "MSTDP"):
@@ -100,7 +114,7 @@ def build_trainer(name, hyper, batch_reduction, per_cell=False):
     """per_cell=True: the trainer is constructed with unrelated defaults; the real hyper-parameters are meant to be passed
     to register_cell (documented: constructor arguments can be overridden on a cell-by-cell basis)"""
     kw = trainer_args(name, _DUMMY if per_cell else hyper)
-    return getattr(learn, name)(**kw, batch_reduction=(torch.mean if per_cell else batch_reduction))
+    return trainer_class(name)(**kw, batch_reduction=(torch.mean if per_cell else batch_reduction))
 
 
 class Harness:
@@ -277,7 +291,7 @@ class Oracle:
     """expected (pos, neg) parts per step, from spike times only"""
 
     def __init__(self, trainer, kind, conn, dt, hyper=None, reduction="sum"):
-        self.name, self.kind, self.conn, self.dt = trainer, kind, conn, dt
+        self.name, self.kind, self.conn, self.dt = RULE.get(trainer, trainer), kind, conn, dt
         self.h = {**DEFAULT_HYPER, **(hyper or {})}
         self.red = reduction
         self.pre_raw, self.pre_arr, self.post = [], [], []
